@@ -50,6 +50,13 @@ var codings = []coding{
 	{"list", []string{"identity, gzip"}, []string{"gzip"}},
 	{"list", []string{"gzip, identity"}, []string{"gzip"}},
 	{"list", []string{"deflate, zstd"}, []string{"deflate", "zstd"}},
+	// several header lines = one list
+	{"multiline", []string{"gzip", "gzip"}, []string{"gzip", "gzip"}},
+	{"multiline", []string{"gzip", "br"}, []string{"gzip", "br"}},
+	{"multiline", []string{"gzip", "identity"}, []string{"gzip"}},
+	{"multiline", []string{"identity", "gzip"}, []string{"gzip"}},
+	{"multiline", []string{"br", "gzip"}, []string{"br", "gzip"}},
+	{"multiline", []string{"zstd", "zstd"}, []string{"zstd", "zstd"}},
 }
 
 func ceClassOf(c coding) string { return c.class }
@@ -75,6 +82,9 @@ type gen struct {
 	w      *world
 	nextID int
 	undet  int
+
+	seqCases []pendingCase
+	singles  int
 }
 
 func (g *gen) newScript(p payload, c coding, setCL bool, ct string) *script {
@@ -148,6 +158,9 @@ func (g *gen) one(x exchange) {
 	key := fmt.Sprintf("%s|%s|%s|%d|%v", x.Stack, x.Cfg.name(), x.Req.name()+x.Req.AE+x.Req.Range, s.ID, x.Pat)
 	nt := len(s.CE) > 0 || x.Cfg.Auto || x.Req.AE != "" || x.Req.Method == "HEAD"
 	r.Add(hk.Case{Coq: coqCase(x, o), Desc: desc}, key, nt)
+	if g.singles++; g.singles%25 == 0 {
+		g.flushSeq(1)
+	}
 }
 
 func runC14(r *hk.Run) {
@@ -155,7 +168,7 @@ func runC14(r *hk.Run) {
 	r.CaseType = "c14_case"
 	r.CheckFn = "c14_check"
 	r.ShardSize = 300
-	r.Rule = "exchanges of the real client (Transport.RoundTrip) with local h1/h2/h3 origins: payloads {empty, 1 B, tiny, 511..513, 4095..4097, 70 KB, 1 MiB, multi-member gzip} x Content-Encoding {gzip, deflate, br, zstd, absent, empty value, identity, unknown tokens, x-gzip, mixed case, lists, padded} x {DisableCompression} x {AutoDecompression} x {GET, GET+caller Accept-Encoding, GET+Range, HEAD} x {Content-Length, chunked/no length} x read-size patterns; plus compressed streams truncated at every offset / bit-flipped in every byte (small) or per offset class (large), and bodies labelled with a coding they are not in. Non-trivial: the response carries a Content-Encoding header, or AutoDecompression is on, or the caller set Accept-Encoding, or the method is HEAD. Distinct by (stack, config, request kind, script, read pattern)."
+	r.Rule = "exchanges of the real client (Transport.RoundTrip) with local h1/h2/h3 origins: payloads {empty, 1 B, tiny, 511..513, 4095..4097, 70 KB, 1 MiB, multi-member gzip} x Content-Encoding {gzip, deflate, br, zstd, absent, empty value, identity, unknown tokens, x-gzip, mixed case, lists, padded} x {DisableCompression} x {AutoDecompression} x {GET, GET+caller Accept-Encoding, GET+Range, HEAD} x {Content-Length, chunked/no length} x read-size patterns; plus compressed streams truncated at every offset / bit-flipped in every byte (small) or per offset class (large), and bodies labelled with a coding they are not in; plus sequences of exchanges on one client (h2, h3, h1 with and without AutoDecompression): bodies closed once/twice/three times, then two or three bodies open at the same time and read with interleaved ReadFull operations of scripted sizes from one goroutine (deterministic interleaving), read to the end or closed early, all four codings and untouched responses mixed, an occasional truncated stream among them. Non-trivial (sequences): at least two bodies open at the same time. Non-trivial (single exchanges): the response carries a Content-Encoding header, or AutoDecompression is on, or the caller set Accept-Encoding, or the method is HEAD. Distinct by (stack, config, request kind, script, read pattern)."
 	rng := hk.NewRand(r.Seed)
 	o, err := startOrigins()
 	if err != nil {
@@ -173,6 +186,10 @@ func (g *gen) run() {
 	r, rng := g.r, g.rng
 	tiny := payload{"tiny", []byte("hello, world\n")}
 	const bin = "application/octet-stream"
+
+	// E. (run first, emitted interleaved) sequences on one client: repeated Close, several bodies alive
+	// at once, interleaved reads
+	g.runSeqs()
 
 	// A. core cross product on a tiny payload
 	for ci, c := range codings {
@@ -330,4 +347,8 @@ func (g *gen) run() {
 		}
 		g.drop(base)
 	}
+
+	// F-H. high-level API, zlib-wrapped deflate, 206
+	g.runExtra()
+	g.flushSeq(len(g.seqCases))
 }
